@@ -3,7 +3,7 @@
 cd "$(dirname "$0")/.."
 mkdir -p work
 seed=${1:-0}
-for p in C16 C18 C01 C06 C07 C05 C19 C02 C04 C03 C12 C13 C11 C15 C10 C14 C08 C17 C09; do
+for p in ${THOROUGH_LIST:-C16 C18 C01 C06 C07 C05 C19 C02 C04 C03 C12 C13 C11 C15 C10 C14 C08 C17 C09}; do
   t0=$(date +%s)
   VERIF_SEED=$seed ./check $p --tier thorough > work/thorough-$p.log 2>&1
   rc=$?
